@@ -103,6 +103,8 @@ class LLDPSender (object):
     self._set_timer()
 
   def _handle_openflow_ConnectionDown (self, event):
+    if core.openflow.getConnection(event.dpid) not in (None, event.connection):
+      return # A stale connection; the switch has already reconnected
     self.del_switch(event.dpid)
 
   def del_switch (self, dpid, set_timer = True):
@@ -320,6 +322,8 @@ class Discovery (EventMixin):
       self.install_flow(event.connection)
 
   def _handle_openflow_ConnectionDown (self, event):
+    if core.openflow.getConnection(event.dpid) not in (None, event.connection):
+      return # A stale connection; the switch has already reconnected
     # Delete all links on this switch
     self._delete_links([link for link in self.adjacency
                         if link.dpid1 == event.dpid
